@@ -68,10 +68,12 @@ Merge(s, t) ==
 
 \* (the js domain is empty for the other kinds so that TLC does not enumerate draws in vain)
 Draws(c) == IF Kind = "res" THEN [1..c -> 0..MaxTotal] ELSE {}
+\* TopK and the reservoir have no merge clause: a second instance would only square the state space
+Active == IF Kind \in {"bloom", "cms", "hll"} THEN S ELSE {1}
 Next ==
-    \/ \E s \in S, x \in Items, c \in 1..MaxW : Add(s, x, c)
-    \/ \E s \in S, x \in Items, c \in 1..MaxW : \E js \in Draws(c) : AddRes(s, x, js)
-    \/ \E s \in S, t \in S : Merge(s, t)
+    \/ \E s \in Active, x \in Items, c \in 1..MaxW : Add(s, x, c)
+    \/ \E s \in Active, x \in Items, c \in 1..MaxW : \E js \in Draws(c) : AddRes(s, x, js)
+    \/ \E s \in Active, t \in Active : Merge(s, t)
 
 Spec == Init /\ [][Next]_vars
 
